@@ -8,7 +8,9 @@ B = "pybads.bads.bads.BADS"
 def _(c):
     type_options(c)
     type_bads_state(c)
-    c.let(msi="self.mesh_size_integer", cap='self.options["max_poll_grid_number"]',
+    c.ints("ghost.n_calls")
+    c.arr("self.function_logger.X_flag", 1, [None], "bool")
+    c.let(nY="count_true(self.function_logger.X_flag)", msi="self.mesh_size_integer", cap='self.options["max_poll_grid_number"]',
           ssi='self.optim_state["search_size_integer"]', fc="self.function_logger.func_count",
           B_='self.options["max_fun_evals"]', it='self.optim_state["iter"]',
           steps='self.options["accelerate_mesh_steps"]')
@@ -23,6 +25,7 @@ def _(c):
         "good_iff": "iff(certain_good_poll, poll_best_improvement > self.sufficient_improvement)",
         "best_is_gap": "poll_best_improvement == self.fval - f_poll_best and poll_best_improvement >= 0",
         "count": "poll_count >= 0",
+        "calls_counted": "ghost.n_calls - old(ghost.n_calls) == fc - old(fc) and nY >= old(nY)",
         "budget": "implies(old(fc) < B_, fc <= B_) and fc >= old(fc) and implies(old(fc) >= B_, fc == old(fc))",
     }, variant=["2 * self.D - poll_count"])
     # --- C13 top-level clauses, taken from the property statement -------------------------------
@@ -38,5 +41,9 @@ def _(c):
     # --- C03: evaluations stay within the budget, counter only grows ------------------------------
     c.ens("budget", "implies(old(fc) < B_, fc <= B_) and fc >= old(fc)", top=True, props=["C03"])
     c.ens("budget_exhausted_no_eval", "implies(old(fc) >= B_, fc == old(fc))", top=True, props=["C03"])
+    c.ens("calls_counted", "ghost.n_calls - old(ghost.n_calls) == fc - old(fc)", top=True, props=["C03"])
+    c.ens("points_kept", "nY >= old(nY)", props=["C03"])
+    c.ens("options_kept", "self.options['search_n_try'] == old(self.options['search_n_try']) and B_ == old(B_) and "
+          "self.options['max_iter'] == old(self.options['max_iter']) and cap == old(cap)")
     c.ens("controller_untouched", "self.optim_state['search_count'] == old(self.optim_state['search_count']) and "
           "self.search_success == old(self.search_success)", props=["C03"])
